@@ -148,9 +148,41 @@ def run(all_props=False, only=None):
     json.dump([{'id': r[0], 'status': r[1], 'by': r[2]} for r in rows], open(os.path.join(SEEDED, 'RESULTS.json'), 'w'), indent=1)
 
 
+def reconfirm(sids):
+    """re-confirm (rebased) seeds against the current /repo: patch applies, baseline intact, demo exits 1 with / 0 without"""
+    clean, _ = scratch()
+    head = subprocess.run(['git', '-C', '/repo', 'rev-parse', '--short', 'HEAD'], capture_output=True, text=True).stdout.strip()
+    try:
+        for sid in sids:
+            dst = os.path.join(SEEDED, sid)
+            patch, demo, metaf = (os.path.join(dst, x) for x in ('patch.diff', 'demo.py', 'meta.json'))
+            d, err = scratch(patch)
+            if d is None:
+                print(sid, 'patch does not apply:', err[:200])
+                continue
+            try:
+                b = subprocess.run([os.path.join(VERIF, 'tools', 'baseline.py'), d], capture_output=True, text=True)
+                base_line = b.stdout.splitlines()[0] if b.stdout else ''
+                rc_with, out_with = run_demo(demo, d)
+                rc_without, _ = run_demo(demo, clean)
+                ok = b.returncode == 0 and rc_with == 1 and rc_without == 0
+                print(sid, 'CONFIRMED' if ok else 'NOT-CONFIRMED', '| baseline:', base_line, '| demo with patch exit', rc_with, '| without', rc_without)
+                if ok:
+                    m = json.load(open(metaf))
+                    m.setdefault('rebased', []).append({'onto': head, 'why': 'a later fix: commit in /repo touched the same lines; same change re-expressed on the repaired code',
+                                                        'baseline_with_patch': base_line, 'demo_exit_with_patch': rc_with, 'demo_exit_without_patch': rc_without})
+                    json.dump(m, open(metaf, 'w'), indent=1)
+            finally:
+                shutil.rmtree(d, ignore_errors=True)
+    finally:
+        shutil.rmtree(clean, ignore_errors=True)
+
+
 if __name__ == '__main__':
     if len(sys.argv) > 1 and sys.argv[1] == 'harvest':
         harvest(*(sys.argv[2:4]))      # harvest [root [tag]], e.g. harvest /tmp/seed2 r2-
+    elif len(sys.argv) > 1 and sys.argv[1] == 'reconfirm':
+        reconfirm(sys.argv[2:])
     else:
         only = None
         for a in sys.argv[2:]:
